@@ -315,7 +315,7 @@ fn op_templates() -> Vec<Op> {
 }
 
 pub fn run(c: &Ctx) {
-    c.set_rule("(a) abs(): every string over {'/','.','~','$',':','a','é'} up to length 5 (quick) / 6 (thorough) x cwd in {/, /a, /a/b, /a/b/c} and cwd entered through a symlink to a directory ({/a/b, /l} -> /zz/t/u) on Memfs with HOME=<sandbox>, V1 set, V2 empty, plus seeded random strings <=40 symbols with protocols in mixed case, braces and multi-byte names; the same strings on Stdfs vs a Memfs whose cwd equals the process cwd (a deep tmpfs directory), and 12 (quick) / 60 (thorough) environments (HOME unset/empty/'/h'/'/h/e//'/'rel', two variables) x cwd {/, /dev, sandbox} in child processes for both backends. Oracle: reference abs (trim protocol -> expand -> Go-Clean -> lexical join onto cwd): value, absolute+clean form, idempotence, independence from filesystem content, error iff empty / invalid expansion / '..' above root (kind class), backends equal. (b) spelling independence: 3 scenarios x every path x every call form (all single-path forms, copy/move both argument positions, symlink link position, copy_b, chmod_b / chown_b executed after a later set_cwd) x 14 spellings (absolute with a variable inside, relative, './', doubled separators + trailing '/', detour through a missing name, '~/', '$V1/', '${V1}/./', 'file://', 'HTTPS://', '../<cwd>/', trailing '/.'): the call with the respelled path and the call with abs(path) run on two fresh replicas must give the same result and the same tree; on Memfs and on a tmpfs Stdfs sandbox. Non-trivial = (a) string with >=2 distinct special characters, (b) spelling != canonical; distinct by case.");
+    c.set_rule("(a) abs(): every string over {'/','.','~','$',':','a','é'} up to length 5 (quick) / 6 (thorough) x cwd in {/, /a, /a/b, /a/b/c} and cwd entered through a symlink to a directory ({/a/b, /l} -> /zz/t/u) on Memfs with HOME=<sandbox>, V1 set, V2 empty, plus seeded random strings <=40 symbols with protocols in mixed case, braces and multi-byte names; the same strings on Stdfs vs a Memfs whose cwd equals the process cwd (a deep tmpfs directory), and 12 (quick) / 60 (thorough) environments (HOME unset/empty/'/h'/'/h/e//'/'rel', two variables) x cwd {/, /dev, sandbox} in child processes for both backends; Stdfs::abs of 9 absolute / '~' / '$V' / protocol spellings from a child whose cwd directory was deleted ('no IO'). Oracle: reference abs (trim protocol -> expand -> Go-Clean -> lexical join onto cwd): value, absolute+clean form, idempotence, independence from filesystem content, error iff empty / invalid expansion / '..' above root (kind class), backends equal. (b) spelling independence: 3 scenarios x every path x every call form (all single-path forms, copy/move both argument positions, symlink link position, copy_b, chmod_b / chown_b executed after a later set_cwd) x 14 spellings (absolute with a variable inside, relative, './', doubled separators + trailing '/', detour through a missing name, '~/', '$V1/', '${V1}/./', 'file://', 'HTTPS://', '../<cwd>/', trailing '/.'): the call with the respelled path and the call with abs(path) run on two fresh replicas must give the same result and the same tree; on Memfs and on a tmpfs Stdfs sandbox. Non-trivial = (a) string with >=2 distinct special characters, (b) spelling != canonical; distinct by case.");
     c.assume("'does no IO' is checked behaviourally (same answer before/after the path exists); symlink's second argument is documented as relative to the link, it is not respelled");
     // one deep sandbox directory is cwd, HOME and $V1 for the whole run
     let base = crate::sandbox::dir("c05");
@@ -475,6 +475,33 @@ pub fn run(c: &Ctx) {
             }
         }
     });
+    // "does no IO": Stdfs::abs of arguments that do not need the cwd, from a process whose cwd was deleted
+    {
+        let mut e = Env::new();
+        e.insert("HOME".into(), "/h/me".into());
+        e.insert("V1".into(), "/abs/x".into());
+        let gone = format!("{}/gone-cwd", base_s);
+        let paths = ["/x/../y", "/", "~/x", "~", "file:///abs//z/", "$V1/q", "${V1}", "HTTPS:///host/a/./b", "/a/b/../../.."];
+        c.eval(paths.len() as u64);
+        c.class("stdfs-abs-without-a-cwd");
+        match probe(&e, &[json!({"op":"abs_std_nocwd","dir":gone,"paths":paths})]) {
+            Ok(r) => match r[0].get("list").and_then(|l| l.as_array()) {
+                Some(list) => {
+                    for (p, got) in paths.iter().zip(list.iter()) {
+                        c.nontrivial(fp(&("nocwd", p)));
+                        let (oks, _) = ref_abs_admit("/", &e, p);
+                        let res = match got.get("ok").and_then(|x| x.as_str()) {
+                            Some(g) if oks.iter().any(|o| o == g) => Ok(()),
+                            _ => Err(Failure::new("abs|needs-the-cwd-for-an-absolute-argument|stdfs", format!("Stdfs::abs({:?}) from a deleted cwd = {} want one of {:?}", p, got, oks))),
+                        };
+                        c.judge("abs-nocwd", &json!([p]), res);
+                    }
+                },
+                None => c.inconclusive(&format!("deleted-cwd probe: {}", r[0])),
+            },
+            Err(x) => c.inconclusive(&format!("envprobe child failed: {}", x)),
+        }
+    }
     // (b) spelling independence
     let ops = op_templates();
     let n_sp = 14;
@@ -531,6 +558,7 @@ pub fn replay(kind: &str, case: &Value) -> Option<CaseResult> {
             let a = case.as_array()?;
             Some(check_abs_x(a[0].as_str()?, true, a[1].as_str()?, &env_now(), false))
         },
+        "abs-nocwd" => Some(Ok(())), // needs a dedicated child process: re-run the check itself
         "abs-home-seq" => Some(Ok(())), // needs the whole HOME sequence: re-run the check itself
         "abs-child" => {
             let e: Env = serde_json::from_value(case["env"].clone()).ok()?;
